@@ -23,6 +23,7 @@
 //! * `C13.panic`             PANIC / poisoned or held global lock
 //! * `C13.hang`              HANG (watchdog or self-deadlock on the global lock)
 //! * `C14.lost_wakeup`       an agent is blocked although its key's mutex is free
+//! * `C03.stream_stall`      a stream returned `Pending` although a key of its snapshot is unlocked and valued
 
 use crate::exec::{AgentKind, Segment};
 use crate::sched::Event;
@@ -37,8 +38,10 @@ pub static ONLY: OnceLock<Vec<String>> = OnceLock::new();
 #[derive(Debug, Clone)]
 struct MGuard {
     key: Key,
-    /// From creation until its drop agent finished.
+    /// From creation until its drop has returned.
     live: bool,
+    /// Its drop has begun (the client can no longer use it; the key may be released at any moment).
+    dying: bool,
     /// Obtained by a lock call for this key (a "use" in the sense of C09), not by a bulk operation.
     by_key: bool,
 }
@@ -120,7 +123,7 @@ impl Monitors {
 
     /// A client-visible guard appeared.
     fn new_guard(&mut self, what: &str, g: Gid, k: Key, v: Option<Val>) {
-        if let Some((og, _)) = self.guards.iter().find(|(og, x)| x.live && x.key == k && **og != g) {
+        if let Some((og, _)) = self.guards.iter().find(|(og, x)| x.live && !x.dying && x.key == k && **og != g) {
             let og = *og;
             self.hit("C01.two_guards", format!("{}: guard {} for key {} while guard {} for the same key is live", what, g, k, og));
         }
@@ -131,11 +134,14 @@ impl Monitors {
                 format!("{}: guard {} for key {} shows value {:?}, the previous holder left {:?}", what, g, k, v, sv),
             );
         }
-        self.guards.insert(g, MGuard { key: k, live: true, by_key: false });
+        self.guards.insert(g, MGuard { key: k, live: true, dying: false, by_key: false });
     }
 
     /// `_unlock` of guard `g` begins now (LRU: a valued entry gets stamped with the current time).
     fn begin_unlock(&mut self, g: Gid) {
+        if let Some(mg) = self.guards.get_mut(&g) {
+            mg.dying = true;
+        }
         if let Some(mg) = self.guards.get(&g) {
             if self.shadow.contains_key(&mg.key) {
                 self.touch.insert(mg.key, self.clock);
@@ -190,10 +196,10 @@ impl Monitors {
         if seg.events.iter().any(|e| *e == Event::BeforeCallback(true)) {
             self.hit("C08.callback_under_lock", "eviction callback invoked while the global lock is held".into());
         }
-        if !seg.snap.gone {
+        if !seg.snap.gone && !seg.mid_cs {
             self.check_snapshot(seg);
         }
-        if seg.snap.poisoned || seg.snap.glock_held {
+        if !seg.mid_cs && (seg.snap.poisoned || seg.snap.glock_held) {
             self.lib_failed = true;
         }
         if self.lib_failed {
@@ -297,6 +303,24 @@ impl Monitors {
                 }
             }
             Label::PollEnd(a) => {
+                if *obs == Obs::Pending && !seg.snap.gone && !seg.mid_cs {
+                    // `Pending` means: every per-entry future has been polled and none could get its lock.
+                    // A snapshot key that is still pending although nobody holds it is a stalled stream.
+                    if let Some(v) = seg.agents.iter().find(|v| v.aid == *a) {
+                        let free: Vec<Key> = v
+                            .stream_pending
+                            .iter()
+                            .copied()
+                            .filter(|k| seg.snap.entries.iter().any(|e| e.key == *k && !e.locked && e.value.is_some()))
+                            .collect();
+                        if !free.is_empty() {
+                            self.hit(
+                                "C03.stream_stall",
+                                format!("stream {} returned Pending although keys {:?} of its snapshot are unlocked and have values", a, free),
+                            );
+                        }
+                    }
+                }
                 if *obs == Obs::End {
                     if let Some(v) = seg.agents.iter().find(|v| v.aid == *a) {
                         if !v.stream_pending.is_empty() {
